@@ -289,6 +289,20 @@ def run_impl_ext(case: dict):
         eq = ctx_eval(ver, f'{ea} eq {eb}', case.get('itz'))[0]
         ne = ctx_eval(ver, f'{ea} ne {eb}', case.get('itz'))[0]
         return ('1' if eq else '0') + ('1' if ne else '0')
+    if op == 'tzlex':
+        # Timezone.fromstring on arbitrary text (directly, or through the timezone= argument of XPathContext) + str()
+        from elementpath.datatypes import Timezone
+        text = case['s']
+        if via == 'ctx':
+            import elementpath
+            tzv = elementpath.XPathContext(root=None, item=1, timezone=text).timezone
+        else:
+            tzv = Timezone.fromstring(text)
+        off = tzv.offset
+        mins = off.days * 1440 + off.seconds // 60
+        if off.microseconds or off.seconds % 60:
+            return 'ERR:OTHER:offset-not-minutes'
+        return '%d|%s' % (mins, ','.join(str(ord(c)) for c in str(tzv)))
     if op == 'lexdt':
         kind, text = case['k'], case['s']
         if kind in G_KINDS:
@@ -414,7 +428,7 @@ def run_impl(case: dict) -> str:
     """the real code on one case, canonical text (same shape as the driver's `model=` field)"""
     from elementpath.datatypes import DayTimeDuration, YearMonthDuration, Duration
     op, ck, via = case['op'], case.get('cls', 'dt10'), case.get('via', 'api')
-    if op in ('tmk', 'tadd', 'tsub', 'tdiff', 'tcmp', 'tadjust', 'gmk', 'gcast', 'gcmp', 'cmpctx', 'durop', 'dcast', 'lexdt', 'seqfn', 'durdiv', 'fmtcomp', 'xcls'):
+    if op in ('tmk', 'tadd', 'tsub', 'tdiff', 'tcmp', 'tadjust', 'gmk', 'gcast', 'gcmp', 'cmpctx', 'durop', 'dcast', 'lexdt', 'seqfn', 'durdiv', 'fmtcomp', 'xcls', 'tzlex'):
         try:
             return run_impl_ext(case)
         except Exception as e:
@@ -561,6 +575,8 @@ def line_of(case: dict) -> str:
         y, mo, d, us_, tz = case['a']
         ly = y + 1 if (ck.endswith('11') and y < 0) else y
         return f'op=gmk K={case["k"]} V={v} Y={ly} MO={mo} D={d} TZ={tzs(tz)}'
+    if op == 'tzlex':
+        return 'op=tzlex S=' + ','.join(str(ord(c)) for c in case['s'])
     if op == 'lexdt':
         vv = '11' if case.get('ver') == '1.1' else '10'
         return f'op=lexdt K={case["k"]} V={vv} S=' + ','.join(str(ord(c)) for c in case['s'])
@@ -627,7 +643,7 @@ def parse_answer(ans: str):
 def finding_tags(ans: str) -> list:
     """ids of the listed findings whose trigger predicate (computed by the driver from the input) holds"""
     parts = dict(p.split('=', 1) for p in ans.split(' ') if '=' in p)
-    return ['F11d'] if parts.get('inK') == '1' else []
+    return (['F11d'] if parts.get('inK') == '1' else []) + (['F11z'] if parts.get('inZ') == '1' else [])
 
 
 def answer_field(ans: str, key: str):
@@ -1074,6 +1090,107 @@ def gen_lex_cases(rng, n):
     return cases
 
 
+TZ_CORPUS = ['00:00', '-0:0', ' 00:00\n', '\t-0:0 ', '0:0', '+0:0', '-0:00', '-00:0', '000:00', '00:00\xa0', '+00:00\n\n', 'Z', '+00:00', '-00:00', '-00:30', '+00:30', '-00:01', '+14:00', '-14:00', '+14:01', '-14:01', '+13:59', '-13:59',
+             '+13:60', '5:3', '-1:-30', '-0:30', '+0:-30', ' Z ', '\tZ\n', 'Z\xa0', '\x1cZ', 'z', '', ':', '::', '1:2:3', '05:30', '+05:30',
+             ' +05:30 ', '+5 : 30', '+5\x1c:30', '+ 5:30', '+05:3_0', '+0_5:30', '_5:30', '5_:30', '5__0:0', '++5:30', '--5:30', '+-5:30',
+             '\u0665:\u0663', '-\uff10\uff15:\uff13\uff10', '+05:30Z', 'Z+05:30', '+05.0:30', '+0x5:30', '+05:30:', '+24:00', '-00:840',
+             '+00:841', '+00:-841', '-0:-840', '99999999999999:0', '-99999999999999:0', '23999999999:0', '23999999976:0', '-23999999976:0',
+             '-23999999977:0', '0:1439999998560', '0:1439999999999', '0:1440000000000', '-0:1439999998560', '-0:1439999998561',
+             '9' * 4300 + ':0', '9' * 4301 + ':0', '0' * 5000 + '5:30', '+05:\x0030', '\x7f5:30', '+05:30\x85', '\u20285:30',
+             '+\u00b25:30', '+\u0be75:00', '-00:00 ', '+00:0', '+1:0', '-13:60', '+12:120', '−05:30', '+05：30']
+
+
+def gen_tz_cases(rng, n):
+    """texts for Timezone.fromstring: (a) the XSD canonical/lexical forms of every kind of offset, (b) edits of such
+    forms (sign, digit, separator, white space of the three classes, underscores, Unicode digits, extra/missing
+    fields), (c) `int()`-level shapes around the range and the timedelta limits, (d) random short strings over a
+    small alphabet"""
+    out = [{'op': 'tzlex', 's': t, 'via': 'api'} for t in TZ_CORPUS]
+    alphabet = list('0123456789') * 3 + list('+-:: Z_') * 2 + ['\t', '\n', '\r', '\x0b', '\x0c', '\x1c', '\x1f', '\x85', '\xa0', '\u2003',
+                '\u3000', '\u0660', '\u0669', '\uff11', '\U0001d7d8', 'z', 'T', '.', 'x', 'e', '\x00', '\x7f', '\u2212', '\xb2', '\u00bd']
+    spaces = [' ', '\t', '\n', '\r', '\x0b', '\x0c', '\x1c', '\x1d', '\x1e', '\x1f', '\x85', '\xa0', '\u1680', '\u2000', '\u200a', '\u2028',
+              '\u2029', '\u202f', '\u205f', '\u3000', '\u200b', '\ufeff']
+    def lit(m):
+        if m == 0:
+            return rng.choice(['Z', '+00:00', '-00:00', '00:00', '-0:0'])
+        return '%s%02d:%02d' % ('-' if m < 0 else '+', abs(m) // 60, abs(m) % 60)
+    def udigits(t):
+        z = rng.choice([0x660, 0x6f0, 0x966, 0xff10, 0x1d7ce, 0x1e950])
+        return ''.join(chr(z + ord(c) - 48) if c.isdigit() and rng.random() < 0.6 else c for c in t)
+    for _ in range(n):
+        r = rng.random()
+        m = rng.choice([0, 1, -1, 30, -30, 59, -59, 60, -60, 599, 600, 839, -839, 840, -840, rng.randint(-840, 840), rng.randint(-840, 840)])
+        if r < 0.25:
+            t = lit(m)
+        elif r < 0.65:
+            t = lit(m)
+            for _k in range(rng.choice([1, 1, 1, 2, 3])):
+                e = rng.randrange(12)
+                i = rng.randrange(len(t) + 1)
+                if e == 0:
+                    t = rng.choice(spaces) * rng.randint(1, 2) + t
+                elif e == 1:
+                    t = t + rng.choice(spaces) * rng.randint(1, 2)
+                elif e == 2:
+                    t = t[:i] + rng.choice(spaces) + t[i:]
+                elif e == 3:
+                    t = t[:i] + '_' + t[i:]
+                elif e == 4:
+                    t = udigits(t)
+                elif e == 5 and t:
+                    i = rng.randrange(len(t)); t = t[:i] + t[i + 1:]
+                elif e == 6:
+                    t = t[:i] + rng.choice(alphabet) + t[i:]
+                elif e == 7 and t:
+                    i = rng.randrange(len(t)); t = t[:i] + rng.choice(alphabet) + t[i + 1:]
+                elif e == 8:
+                    t = t.replace(':', rng.choice([':-', ':+', '::', '', ' : ', ':0', ':00']), 1)
+                elif e == 9 and t[:1] in '+-':
+                    t = rng.choice(['', '+', '-', '+-', '--', ' +']) + t[1:]
+                elif e == 10 and ':' in t:
+                    h, mi = t.split(':', 1)
+                    t = h + ':' + str(rng.choice([60, 61, 99, 100, 839, 840, 841, 1440])) if rng.random() < 0.5 else \
+                        h[:1] + str(rng.choice([14, 15, 23, 24, 99, 140])) + ':' + mi
+                else:
+                    t = t.lstrip('+') if rng.random() < 0.5 else t.replace('0', '', 1)
+        elif r < 0.85:
+            h = rng.choice([0, 0, 1, 5, 13, 14, 15, -0, -1, -13, -14, -15, rng.randint(-20, 20), 23999999975, 23999999976, 23999999977,
+                            -23999999976, -23999999977, 10 ** rng.randint(2, 30)])
+            mi = rng.choice([0, 0, 1, 30, 59, 60, 61, -1, -30, -60, 839, 840, 841, -840, -841, rng.randint(-900, 900), 1439999998560 + rng.randint(-2, 1441)])
+            hs = rng.choice(['%d', '%+d', '%02d', '%+03d', '-%d', '%d ', '%03d']) % h
+            ms = rng.choice(['%d', '%02d', '%+d', '%03d', ' %d', '%d ']) % mi
+            t = hs + ':' + ms
+        else:
+            t = ''.join(rng.choice(alphabet) for _ in range(rng.choice([1, 2, 3, 4, 5, 6, 6, 6, 7, 8])))
+        if rng.random() < 0.1:
+            t = rng.choice([' ', '\n', '\t ', '\r\n', '\xa0', '\x0b', '\x1c']) + t + rng.choice(['', ' ', '\n', '\x85', '\u3000'])
+        out.append({'op': 'tzlex', 's': t, 'via': 'ctx' if rng.random() < 0.2 else 'api'})
+    return out
+
+
+def check_tz_tables(run: Run) -> None:
+    """the two CPython tables the `int()` / `strip()` model uses (white space, Unicode decimal digits) against the live interpreter,
+    over every code point"""
+    ans = run.driver('C11', ['op=tztab'])[0]
+    model = (answer_field(ans, 'model') or '|').split('|')
+    ws = ','.join(str(c) for c in range(0x110000) if chr(c).isspace() and (' ' + chr(c) + ' ').strip() == '')
+    zeros, ok = [], True
+    for c in range(0x110000):
+        try:
+            v = int(chr(c))
+        except ValueError:
+            continue
+        if v == 0:
+            zeros.append(c)
+        elif not zeros or zeros[-1] + v != c:
+            ok = False
+    live = [ws, ','.join(map(str, zeros))]
+    run.stats.count('tzlex:tables-checked')
+    if model != live or not ok:
+        run.disagree(Disagreement({'op': 'tztab'}, '|'.join(live), '|'.join(model), None, what='tztab-model',
+                                  site='str.isspace / int() decimal digits of the running interpreter'))
+
+
 def gen_dur_cases(rng, n):
     """arithmetic on durations: ± duration, × ÷ integer / decimal / double"""
     cases = []
@@ -1199,7 +1316,7 @@ EXT_CORPUS = [
 
 
 # ----------------------------------------------------------------------- correspondence
-SITES = {'xcls': 'implicit_timezone_operands / comparison and minus operators on operands of different classes',
+SITES = {'tzlex': 'Timezone.fromstring / Timezone.__str__ (datetime.py:57-70, 93-115)', 'xcls': 'implicit_timezone_operands / comparison and minus operators on operands of different classes',
          'fmtcomp': 'fn:format-dateTime/date/time numeric components [Y][E][M][D][H][m][s][f][Z]',
          'seqfn': 'fn:max/min/distinct-values/index-of/deep-equal/sort on date/time values', 'durdiv': 'duration div duration',
          'lexdt': 'AbstractDateTime.fromstring (pattern, year/microsecond handling) + __str__',
@@ -1337,6 +1454,14 @@ def compare(run: Run, cases: list, record=True) -> list:
             spec = case.get('_spec', model)
             if not spec.startswith('ERR') and '|' in (model or ''):
                 spec = spec + '|' + model.split('|', 1)[1]   # string form: compared against the model's formatter
+        if case['op'] == 'tzlex':
+            if record:
+                st.count('tzlex:' + (answer_field(ans, 'br') or '?'))
+                st.count('tzlex-via:' + case.get('via', 'api'))
+            # the specification only says "not a timezone literal": any exception class of the code is a rejection
+            # (the model must still name the same class as the code: ValueError / OverflowError)
+            if spec.startswith('ERR') and impl.startswith('ERR:') and not impl.startswith('ERR:OTHER'):
+                spec = impl
         if case['op'] == 'durop':
             # F&O: FODT0002 for overflow *and* for a zero divisor; the datatypes API raises OverflowError / ZeroDivisionError;
             rng_err = {'ERR:OverflowError', 'ERR:ZeroDivisionError', 'ERR:FODT0002'}
@@ -1901,11 +2026,13 @@ def correspond(run: Run) -> None:
         'result compared with model and spec computed from the ORIGINAL value and the argument object compared with its state before '
         'the call (xs:dateTime, xs:date, xs:time; with and without implicit timezone); classes DateTime/DateTime10/Date/Date10; 30% through '
         'XPath expressions, 70% through the datatypes API; years ±{1..5, 99..101, 399..401, 1582, 9996..10004, 12000, '
-        '2.7M (timedelta edge), 2^31-1, random}. distinct = distinct protocol lines')
+        '2.7M (timedelta edge), 2^31-1, random}; TZLEX: arbitrary texts through Timezone.fromstring (directly / XPathContext(timezone=text)) + str(): XSD literals, edits of them (white space of three classes, underscores, Unicode digits, signs, extra/missing fields), int()-level shapes around ±14:00 and the timedelta limits, random strings; the isspace/decimal-digit tables checked over all code points. distinct = distinct protocol lines')
     for i in range(0, len(cases), 20000):
         compare(run, cases[i:i + 20000])
     compare(run, [dict(c) for c in EXT_CORPUS] + gen_ext_cases(rng, run.scale(5000, 80000)) + gen_dur_cases(rng, run.scale(3000, 50000))
             + gen_lex_cases(rng, run.scale(4000, 60000)))
+    check_tz_tables(run)
+    compare(run, gen_tz_cases(rng, run.scale(6000, 80000)))
     compare_reuse(run, [gen_reuse(rng) for _ in range(run.scale(200, 5000))])
     hists = [dict(c) for c in HIST_CORPUS] + [gen_hist(rng) for _ in range(run.scale(3000, 40000))]
     for i in range(0, len(hists), 5000):
@@ -1946,7 +2073,7 @@ def search(run: Run):
         hs = hist_search_cases()
         compare_hist(sub, hs, record=False)
         import random as _r
-        ext = [dict(c) for c in EXT_CORPUS] + gen_ext_cases(_r.Random(11), 6000) + gen_dur_cases(_r.Random(12), 4000) + gen_lex_cases(_r.Random(13), 4000)
+        ext = [dict(c) for c in EXT_CORPUS] + gen_ext_cases(_r.Random(11), 6000) + gen_dur_cases(_r.Random(12), 4000) + gen_lex_cases(_r.Random(13), 4000) + gen_tz_cases(_r.Random(14), 6000)
         compare(sub, ext, record=False)
         cases = cases + hs + ext
         found = sub.disagreements
@@ -2095,7 +2222,7 @@ def body(run: Run) -> int:
             return 1 if ds else 0
         print('replay file has no failing input; broken:', data.get('broken'))
         return 1
-    run.prove(['EPV.Props.C11'], ['EPV.Lemmas.CalendarTime', 'EPV.Model.CalendarLex', 'EPV.Spec.Timeline', 'EPV.Model.Calendar', 'EPV.Proto'])
+    run.prove(['EPV.Props.C11', 'EPV.Props.C11Tz'], ['EPV.Model.TzLexFinding', 'EPV.Model.TzLex', 'EPV.Spec.TzLex', 'EPV.Lemmas.CalendarTime', 'EPV.Model.CalendarLex', 'EPV.Spec.Timeline', 'EPV.Model.Calendar', 'EPV.Proto'])
     try:
         correspond(run)
     except DriverError as e:
